@@ -4,6 +4,7 @@ import (
 	"context"
 	"errors"
 	"fmt"
+	"os"
 	"runtime"
 	"time"
 
@@ -16,10 +17,18 @@ import (
 	"verifharness/internal/evid"
 )
 
-const (
-	stepWatchdog = 20 * time.Second // one logical wait; firing = inconclusive
-	maxRestarts  = 4
-)
+var stepWatchdog = 20 * time.Second // one logical wait; firing = inconclusive
+
+const maxRestarts = 4
+
+func init() {
+	if v := os.Getenv("C13_WATCHDOG_MS"); v != "" { // debugging aid only
+		var ms int
+		if _, err := fmt.Sscan(v, &ms); err == nil && ms > 0 {
+			stepWatchdog = time.Duration(ms) * time.Millisecond
+		}
+	}
+}
 
 // ---- client-side observation through the client's own logger -----------------------------------------
 
@@ -172,6 +181,11 @@ func (r *runner) stopSession() bool {
 func (r *runner) afterWait(ok bool, what string) (goOn bool, restarted bool) {
 	if !ok {
 		r.inconcl = "watchdog fired while waiting for: " + what
+		if os.Getenv("C13_DEBUG") != "" {
+			buf := make([]byte, 1<<22)
+			buf = buf[:runtime.Stack(buf, true)]
+			fmt.Fprintf(os.Stderr, "== watchdog (%s); goroutines:\n%s\n", what, buf)
+		}
 		return false, false
 	}
 	r.n.mu.Lock()
@@ -215,6 +229,21 @@ func (r *runner) afterWait(ok bool, what string) (goOn bool, restarted bool) {
 		return false, false
 	}
 	return true, true
+}
+
+// barrier makes sure no request of the client is half-way through being written when the harness closes the connection:
+// a round trip (eth_syncing via ExecutionClient.Healthy) on the client's current connection is only admitted by
+// go-ethereum's rpc.Client after the previous request's send has been acknowledged to its dispatcher. Without it a drop
+// that lands between the client's socket write and that acknowledgement hits a race in go-ethereum v1.13.5's rpc.Client
+// (the request is neither failed by the read error nor by the write) and FilterLogs/SubscribeNewHead, which the execution
+// client calls without a deadline, never return: a stall, which no finite observation can tell from slowness.
+func (r *runner) barrier() {
+	if r.sess == nil {
+		return
+	}
+	ctx, cancel := context.WithTimeout(context.Background(), 5*time.Second)
+	_ = r.sess.ec.Healthy(ctx)
+	cancel()
 }
 
 // trailingFailures: failures the node saw since the last successful eth_getLogs.
@@ -311,6 +340,7 @@ func (r *runner) execGroup(g op) bool {
 		case "SD":
 			ok, restarted = r.afterWait(n.wait(func() bool { return n.freshSubs() > 0 && n.inflight == 0 }, waitQuiet, stepWatchdog), "a fresh subscription to drop")
 			if ok && !restarted {
+				r.barrier()
 				n.drop()
 				if a.AdvanceAfter > 0 {
 					n.advance(a.AdvanceAfter, a.Each) // blocks produced while the client is away
@@ -343,6 +373,7 @@ func (r *runner) execGroup(g op) bool {
 			n.advance(a.Delta, a.Each)
 			ok, restarted = r.afterWait(n.wait(func() bool { return n.held != nil }, waitEscalate, stepWatchdog), "eth_getLogs call to hold")
 			if ok && !restarted {
+				r.barrier()
 				n.drop()
 				n.releaseHold(true)
 				ok, restarted = r.afterWait(n.wait(func() bool { return n.held == nil }, waitQuiet, stepWatchdog), "held eth_getLogs to end")
@@ -512,10 +543,28 @@ func (r *runner) conclude(T uint64, completed bool) {
 	if v != nil {
 		c.Violation(v.Kind, r.p.Lane+":"+v.Sig, fmt.Sprintf("batch=%d follow-distance=%d from=%d: %s\nentries read: %v", r.p.Batch, r.p.Dist, r.p.From, v.Detail, blocksOf(entries)), r.witness(T))
 	} else if r.inconcl != "" {
-		c.Inconclusive(fmt.Sprintf("%s case %d/%d: %s", r.p.Lane, c.Idx, c.Index, r.inconcl))
+		n.mu.Lock()
+		tl := n.timeline
+		if len(tl) > 14 {
+			tl = tl[len(tl)-14:]
+		}
+		tail := fmt.Sprint(tl)
+		n.mu.Unlock()
+		c.Inconclusive(fmt.Sprintf("%s case %d/%d (batch=%d dist=%d from=%d): %s; last events: %s", r.p.Lane, c.Idx, c.Index, r.p.Batch, r.p.Dist, r.p.From, r.inconcl, tail))
 	}
 	r.account(completed && stopped && r.inconcl == "", v)
+	if os.Getenv("C13_DEBUG") != "" {
+		n.mu.Lock()
+		for _, l := range n.timeline {
+			fmt.Fprintln(os.Stderr, l)
+		}
+		fmt.Fprintf(os.Stderr, "== end of case %d: +%.1fms\n", c.Index, float64(time.Since(n.t0).Microseconds())/1000)
+		n.mu.Unlock()
+	}
 	n.shutdown()
+	if os.Getenv("C13_DEBUG") != "" {
+		fmt.Fprintf(os.Stderr, "== after shutdown: +%.1fms\n", float64(time.Since(n.t0).Microseconds())/1000)
+	}
 }
 
 func runStream(c *evid.Case) {
